@@ -734,7 +734,7 @@ class EvalFunc:
             args.append(arg.arg)
         return args
 
-    async def call(self, ast_ctx, *args, **kwargs):
+    async def call(self, ast_ctx, /, *args, **kwargs):
         """Call the function with the given context and arguments."""
         sym_table = {}
         if args is None:
@@ -876,7 +876,7 @@ class EvalFuncVar:
         self.func = None
         return func
 
-    async def call(self, ast_ctx, *args, **kwargs):
+    async def call(self, ast_ctx, /, *args, **kwargs):
         """Call the EvalFunc function."""
         return await self.func.call(ast_ctx, *args, **kwargs)
 
@@ -939,7 +939,7 @@ class EvalFuncVarClassInst(EvalFuncVar):
         """Hash consistently with __eq__ (done callbacks are kept in a dict keyed by the callback)."""
         return hash((id(self.func), id(self.class_inst_weak())))
 
-    async def call(self, ast_ctx, *args, **kwargs):
+    async def call(self, ast_ctx, /, *args, **kwargs):
         """Call the EvalFunc function."""
         return await self.func.call(ast_ctx, self.class_inst_weak(), *args, **kwargs)
 
@@ -2054,7 +2054,7 @@ class AstEval:
             func = func.get()
         return await self.call_func(func, func_name, *args, **kwargs)
 
-    async def call_func(self, func, func_name, *args, **kwargs):
+    async def call_func(self, func, func_name, /, *args, **kwargs):
         """Call a function with the given arguments."""
         if func_name is None:
             try:
